@@ -360,6 +360,8 @@ module Mg = struct
       | "cleararch" :: pals -> Stdlib.List.iter pal_tok pals
       | ("assign" | "assignid" | "remove" | "removeid") :: _ :: _ :: p :: _ -> ignore (reg_pal (int_of_string p))
       | "jobact" :: _ :: _ :: _ :: p :: _ -> ignore (reg_pal (int_of_string p))
+      | "jobdo" :: ("create" | "createarch") :: _ :: pals -> Stdlib.List.iter pal_tok pals
+      | "jobdo" :: ("assignid" | "removeid") :: _ :: _ :: p :: _ -> ignore (reg_pal (int_of_string p))
       | "runtyped" :: k :: _ -> Stdlib.List.iter (fun p -> ignore (reg_pal p)) (Stdlib.List.nth [[0]; [0; 1]; [2; 4]; [2; 1]] (int_of_string k))
       | "build" :: _ :: _ :: rest ->
           let rec go mode = function
@@ -392,6 +394,7 @@ module Mg = struct
     let st = ref (init (nat_of_int !maxthr) cis) in
     let jobs : (job * bool) array ref = ref [||] in      (* job, require_entity *)
     let typed_jobs : job option array ref = ref (Array.make 4 None) in
+    let job_do : string list list ref = ref [] in         (* structural calls of the next runjob's callback *)
     let job_acts = ref [] in                             (* pending callback actions of the next runjob *)
     let workers = ref 0 and cap = ref 16384 in
     Stdlib.List.iter (fun l -> match split_ws l with
@@ -492,6 +495,7 @@ module Mg = struct
              finish !st (Printf.sprintf "%d req=%s chk=%s" (Array.length !jobs - 1)
                (String.concat "," (Stdlib.List.map (fun ((c, cst), req) -> Printf.sprintf "%d:%d" (int_of_nat c) ((if cst then 1 else 0) lor (if req then 0 else 2))) !reqs))
                (match bits_of_key !chk with [] -> "-" | l -> String.concat "," (Stdlib.List.map string_of_int l)))
+         | "jobdo", rest -> job_do := !job_do @ [rest]; finish !st ""
          | "jobact", [idx; kind; h; p] ->
              job_acts := (((nat_of_int (int_of_string idx), kind = "getmut"), parse_handle h), cid p) :: !job_acts;
              finish !st ""
@@ -501,8 +505,30 @@ module Mg = struct
              let tov = (match rest with t :: _ -> int_of_string t | [] -> 0) in
              let acts = Stdlib.List.rev !job_acts in
              job_acts := [];
-             (match step !st (ORunJob (jb, mode = "1", nat_of_int tov, nat_of_int !workers, nat_of_int !cap, acts)) with
+             let todo = !job_do in
+             job_do := [];
+             (match step !st (ORunJob (jb, mode = "1", nat_of_int tov, nat_of_int !workers, nat_of_int !cap, acts, todo <> [])) with
               | Ok (s', RJob (last, arrays)) ->
+                  (* the callback's structural calls (recorded under the job's lock), then the unlock of the run *)
+                  let s' = if todo = [] then s' else if arrays = [] then s' else begin
+                    let cur = ref s' in
+                    Stdlib.List.iter (fun toks ->
+                      let o = (match toks with
+                        | ("create" | "createarch" as k) :: _ :: pals -> let (m, sids) = parse_pals pals in
+                            Some (OCreate (nat_of_int 0, n_of_int m, Stdlib.List.map nat_of_int sids, k = "createarch"))
+                        | "assignid" :: _ :: h :: p :: v :: _ ->
+                            let av = if v = "-" || not (hasval p) then ADefault else AValue (z_of_int (int_of_string v)) in
+                            Some (OAssign (nat_of_int 0, parse_handle h, cid p, av, false))
+                        | "removeid" :: _ :: h :: p :: _ -> Some (ORemove (nat_of_int 0, parse_handle h, cid p, false))
+                        | "destroynow" :: _ :: h :: _ -> Some (ODestroyNow (nat_of_int 0, parse_handle h))
+                        | _ -> None) in
+                      match o with
+                      | None -> ()
+                      | Some o -> (match step !cur o with
+                          | Ok (s2, RHandle nh) -> issued := !issued @ [nh]; cur := s2
+                          | Ok (s2, _) -> cur := s2
+                          | Err e -> Printf.printf "ERR %s\n" (err_name e); dead := true)) todo;
+                    (match step !cur OUnlock with Ok (s3, _) -> s3 | Err e -> Printf.printf "ERR %s\n" (err_name e); dead := true; !cur) end in
                   !jobs.(j) <- ({ jb with j_last = last }, want_ent);
                   let arr_str ((task, idx), ents) =
                     Printf.sprintf "t%d:n%d:%s" (int_of_nat task) (int_of_nat idx)
@@ -524,7 +550,7 @@ module Mg = struct
              let reqs = Stdlib.List.map (fun (p, cst, req) -> ((nat_of_int (reg_pal p), cst), req)) spec in
              let jb = (match !typed_jobs.(k) with Some j -> j | None -> { j_reqs = reqs; j_check = n_of_int 0; j_last = n_of_int 4294967295 }) in
              let tov = (match rest with t :: _ -> int_of_string t | [] -> 0) in
-             (match step !st (ORunJob (jb, mode = "1", nat_of_int tov, nat_of_int !workers, nat_of_int !cap, [])) with
+             (match step !st (ORunJob (jb, mode = "1", nat_of_int tov, nat_of_int !workers, nat_of_int !cap, [], false)) with
               | Ok (s', RJob (last, arrays)) ->
                   !typed_jobs.(k) <- Some { jb with j_last = last };
                   let ent_str task idx (h, cells) =
@@ -598,6 +624,7 @@ module MgS = struct
       | ["threads"; n] -> maxthr := max !maxthr (int_of_string n + 1)
       | _ -> ()) lines;
     let st = ref (x_init (nat_of_int !maxthr) cis) in
+    let sjobs : (int list * bool) list ref = ref [] and sjob_do : string list list ref = ref [] in
     let opn = ref 0 in
     let dead = ref false in
     Stdlib.List.iter (fun l ->
@@ -614,6 +641,36 @@ module MgS = struct
         let nk h = nat_of_int (parse_k h) in
         (match opname, args with
          | ("reg" | "regs" | "maxthreads" | "threads" | "chunkcap"), _ -> ()
+         | "mkjob", _ :: rest ->
+             let req = ref [] and inchk = ref false and haschk = ref false in
+             Stdlib.List.iter (fun tok ->
+               if tok = "c" then inchk := true
+               else if !inchk then haschk := true
+               else (match String.split_on_char ':' tok with
+                     | [p; fl] -> if int_of_string fl land 2 = 0 then req := reg_pal (int_of_string p) :: !req
+                     | _ -> ())) rest;
+             sjobs := !sjobs @ [(!req, !haschk)]; dump !st
+         | "jobdo", rest -> sjob_do := !sjob_do @ [rest]; dump !st
+         | "runjob", j :: _ when !sjob_do <> [] ->
+             (* the callback's structural calls happen iff the run visits at least one entity: for a job without version filter,
+                iff some live entity has every required component *)
+             let (req, _) = Stdlib.List.nth !sjobs (int_of_string j) in
+             let todo = !sjob_do in
+             sjob_do := [];
+             let runs = Stdlib.List.exists (fun e -> Stdlib.List.for_all (fun c -> Stdlib.List.exists (fun (c', _) -> int_of_nat c' = c) e.e_comps) req) !st.x_ents in
+             if runs then begin
+               st := x_step !st XoLock;
+               Stdlib.List.iter (fun toks -> match toks with
+                 | ("create" | "createarch" as k) :: _ :: pals -> let (m, sids) = Mg.parse_pals pals in
+                     st := x_step !st (XoCreate (nat_of_int 0, n_of_int m, Stdlib.List.map nat_of_int sids, k = "createarch"))
+                 | "assignid" :: _ :: h :: p :: v :: _ ->
+                     let av = if v = "-" || not (hasval p) then None else Some (Mg.z_of_int (int_of_string v)) in
+                     st := x_step !st (XoAssign (nat_of_int 0, nk h, cid p, av))
+                 | "removeid" :: _ :: h :: p :: _ -> st := x_step !st (XoRemove (nat_of_int 0, nk h, cid p, false))
+                 | "destroynow" :: _ :: h :: _ -> st := x_step !st (XoDestroyNow (nat_of_int 0, nk h))
+                 | _ -> ()) todo;
+               st := x_step !st XoUnlock end;
+             dump !st
          | ("arm" | "disarm" | "teardown" | "mkjob" | "runjob" | "runtyped" | "jobact" | "verchunk" | "chunkfn" | "getconst" | "getmut" | "has" | "markdirty" | "valid" | "archof" | "getshared"), _ -> dump !st
          | ("create" | "createarch"), tid :: pals -> let (m, sids) = Mg.parse_pals pals in
              apply (XoCreate (ni tid, n_of_int m, Stdlib.List.map nat_of_int sids, opname = "createarch"))
